@@ -292,6 +292,130 @@ pub fn strategy(dim: usize, thorough: bool) -> BoxedStrategy<Case> {
         .boxed()
 }
 
+
+// ------------------------------------------------------------------------------------------------
+// Large instances: hundreds of cells, far hints, long walks.  The triangulation is not certified by
+// the (expensive) independent oracle; the check only uses facts that hold for any triangulation
+// the library itself validates: a query built as a strictly interior dyadic combination of one
+// cell's vertices lies in that cell, so the answer can never be `Outside`, and whatever cell is
+// returned must contain the query exactly.
+
+#[derive(Debug, Clone, Serialize, Deserialize)]
+pub struct LargeCase {
+    pub dim: usize,
+    pub robust: bool,
+    pub salt: u64,
+    /// integer coordinates (scaled by 1/16)
+    pub raw: Vec<Vec<i32>>,
+    /// (cell selector, dyadic weights) of the queries
+    pub queries: Vec<(u16, Vec<u8>)>,
+    /// hint selectors (live cells); None, a stale and a forged key are always tried as well
+    pub hints: Vec<u16>,
+}
+
+fn run_large<K: Kern<D>, const D: usize>(case: &LargeCase, log: &mut CaseLog) {
+    log.class(format!("large:D{D}"));
+    let k = K::make();
+    let mut seen = std::collections::BTreeSet::new();
+    let pts: Vec<Vec<f64>> = case.raw.iter().filter(|r| seen.insert((*r).clone())).map(|r| r.iter().map(|&v| v as f64 / 16.0).collect()).collect();
+    let verts: Vec<_> = pts.iter().enumerate().map(|(i, p)| mk_vertex::<i32, D>(p, uuid_for(case.salt, i), Some(i as i64))).collect();
+    let Ok(dt) = Dt::<K, i32, D>::with_topology_guarantee(&k, &verts, TopologyGuarantee::PLManifold) else {
+        log.class("large:construction_err");
+        return;
+    };
+    if dt.as_triangulation().validate().is_err() {
+        log.class("large:not_valid(skipped)");
+        return;
+    }
+    let s = Snap::of(dt.tds());
+    let Some(cells) = s.cell_indices() else { return };
+    if cells.len() < 64 {
+        log.class("large:too_small(skipped)");
+        return;
+    }
+    log.class(if cells.len() > 256 { "large:more_than_256_cells" } else { "large:64_to_256_cells" });
+    let spts = s.points();
+    let mut hints: Vec<Option<u64>> = vec![None];
+    for h in &case.hints {
+        hints.push(Some(s.cells[crate::gen::world::pick(*h, s.cells.len())].key));
+    }
+    hints.push(Some(s.cells[0].key + (2u64 << 32))); // stale: same slot, later version
+    hints.push(Some(0x0000_0001_0000_7FFF));
+    for (csel, w) in &case.queries {
+        let ci = crate::gen::world::pick(*csel, cells.len());
+        let c = &cells[ci];
+        // strictly positive dyadic weights summing to 64
+        let mut wts: Vec<u32> = (0..=D).map(|i| 1 + (*w.get(i).unwrap_or(&1) as u32 % 13)).collect();
+        let tot: u32 = wts.iter().sum();
+        // scale to a power-of-two denominator: use weights/ tot only if tot is a power of two; otherwise pad the first
+        let target = tot.next_power_of_two();
+        wts[0] += target - tot;
+        let q: Vec<f64> = (0..D).map(|j| c.iter().zip(&wts).map(|(&vi, &wt)| spts[vi][j] * wt as f64).sum::<f64>() / target as f64).collect();
+        let mut all = spts.clone();
+        all.push(q.clone());
+        let sp = ScaledPoints::new(&all);
+        let qi = all.len() - 1;
+        // the construction must really be strictly inside (exactness of the dyadic combination)
+        match sp.barycentric_signs(c, qi) {
+            Some(sg) if sg.iter().all(|&x| x > 0) => {}
+            _ => continue,
+        }
+        let point = mk_point::<D>(&q);
+        for h in &hints {
+            log.evals += 1;
+            let hint = h.map(ckey_from_u64);
+            let r = locate(dt.tds(), &k, &point, hint);
+            let rs = locate_with_stats(dt.tds(), &k, &point, hint);
+            let describe = |r: &Result<LocateResult, _>| -> String {
+                match r {
+                    Ok(LocateResult::InsideCell(ck)) => {
+                        let key = ckey_u64(*ck);
+                        match s.cells.iter().position(|x| x.key == key) {
+                            Some(pos) => match sp.barycentric_signs(&cells[pos], qi) {
+                                Some(sg) if sg.iter().all(|&x| x >= 0) => "ok".into(),
+                                _ => format!("InsideCell({key:#x}) which does not contain the query"),
+                            },
+                            None => format!("InsideCell({key:#x}) which is not a live cell"),
+                        }
+                    }
+                    Ok(other) => format!("{other:?} for a point strictly inside cell {:#x}", s.cells[ci].key),
+                    Err(_) => "Err".into(), // an error is not a wrong answer
+                }
+            };
+            let stats_r = rs.as_ref().map(|(r, _)| r.clone()).map_err(|_| ());
+            for (api, d) in [("locate", describe(&r.map_err(|_| ()))), ("locate_with_stats", describe(&stats_r))] {
+                if d != "ok" && d != "Err" {
+                    log.violate(
+                        Violation::new(ID, "wrong_location_large", api, format!("{} cells, query {:?} (strictly inside cell {:#x}), hint {:?}: {api} returned {d}", cells.len(), q, s.cells[ci].key, h.map(|x| format!("{x:#x}"))))
+                            .fact("dim", D as u64)
+                            .fact("kernel", K::NAME),
+                    );
+                    return;
+                }
+            }
+        }
+    }
+    log.nontrivial_hash(hash_of(&serde_json::to_string(case).unwrap_or_default()));
+}
+
+pub fn exec_large(case: &LargeCase, log: &mut CaseLog) {
+    if !(2..=4).contains(&case.dim) || case.raw.iter().any(|p| p.len() != case.dim) {
+        return;
+    }
+    dispatch_kd!(case.dim, case.robust, run_large, case, log)
+}
+
+pub fn large_strategy(dim: usize) -> BoxedStrategy<LargeCase> {
+    let (nmin, nmax) = match dim {
+        2 => (90usize, 260usize),
+        3 => (35, 90),
+        _ => (18, 34),
+    };
+    (any::<bool>(), any::<u64>(), proptest::collection::vec(proptest::collection::vec(-2000i32..=2000, dim), nmin..=nmax), proptest::collection::vec((any::<u16>(), proptest::collection::vec(any::<u8>(), dim + 1)), 4..=10), proptest::collection::vec(any::<u16>(), 8..=24))
+        .prop_map(move |(robust, salt, raw, queries, hints)| LargeCase { dim, robust, salt, raw, queries, hints })
+        .boxed()
+}
+
 pub fn run_shard(ctx: &mut Ctx) {
     let thorough = ctx.tier == Tier::Thorough;
     for dim in 2..=5usize {
@@ -308,9 +432,25 @@ pub fn run_shard(ctx: &mut Ctx) {
         let n = ctx.share(total);
         ctx.run_cases(&format!("locate_d{dim}"), n, strategy(dim, thorough), &|c, l| exec(c, l));
     }
+    for dim in 2..=4usize {
+        let total = match (ctx.tier, dim) {
+            (Tier::Quick, 2) => 160,
+            (Tier::Quick, 3) => 96,
+            (Tier::Quick, _) => 48,
+            (Tier::Thorough, 2) => 3_200,
+            (Tier::Thorough, 3) => 2_000,
+            (Tier::Thorough, _) => 1_000,
+        };
+        let n = ctx.share(total);
+        ctx.run_cases(&format!("large_locate_d{dim}"), n, large_strategy(dim), &|c, l| exec_large(c, l));
+    }
 }
 
-pub fn replay(_label: &str, case: &Value, ctx: &mut Ctx) -> Option<Violation> {
+pub fn replay(label: &str, case: &Value, ctx: &mut Ctx) -> Option<Violation> {
+    if label.starts_with("large_locate") {
+        let c: LargeCase = serde_json::from_value(case.clone()).ok()?;
+        return ctx.run_one("replay", &c, &|c, l| exec_large(c, l));
+    }
     let c: Case = serde_json::from_value(case.clone()).ok()?;
     ctx.run_one("replay", &c, &|c, l| exec(c, l))
 }
@@ -319,7 +459,7 @@ pub fn meta() -> super::Meta {
     super::Meta {
         id: ID,
         level: "exploration",
-        rule: "case = a batch-constructed triangulation (grid / general / cospherical / flat families, D 2-5, both kernels) that passes the independent certification (L1-L3, positive orientation, convex boundary); per case the queries are every vertex, cell barycentre, facet centroid, edge midpoint, hull-facet centroid, hull-edge midpoint, a point beyond and a point on the hyperplane of each hull facet, the integer grid of the bounding box +-1 (strided to ~250) and generated quarter-integer points, each under the hints none / live cells (all when <= 16) / stale / forged / null / foreign; only queries whose side of every facet hyperplane of every cell is decidable are judged; an evaluation is one (query, hint) pair through locate and locate_with_stats; non-trivial = triangulation with >= 2D+2 cells and a query on a cell boundary, a walk of >= 3 steps or a scan fallback; distinct by the whole case",
+        rule: "case = a batch-constructed triangulation (grid / general / cospherical / flat families, D 2-5, both kernels) that passes the independent certification (L1-L3, positive orientation, convex boundary); per case the queries are every vertex, cell barycentre, facet centroid, edge midpoint, hull-facet centroid, hull-edge midpoint, a point beyond and a point on the hyperplane of each hull facet, the integer grid of the bounding box +-1 (strided to ~250) and generated quarter-integer points, each under the hints none / live cells (all when <= 16) / stale / forged / null / foreign; only queries whose side of every facet hyperplane of every cell is decidable are judged; (large instances) triangulations of 90-260 points in 2D, 35-90 in 3D, 18-34 in 4D (64 to ~500 cells, the library's own validate() must accept them) are queried with strictly interior dyadic combinations of a cell's vertices under the hints none / 8-24 live cells anywhere in the triangulation / stale / forged: the answer must be InsideCell of a cell that contains the query exactly, never Outside; an evaluation is one (query, hint) pair through locate and locate_with_stats; non-trivial = triangulation with >= 2D+2 cells and a query on a cell boundary, a walk of >= 3 steps or a scan fallback; distinct by the whole case",
         assumptions: &[
             "a hint counts as live iff its numeric key is a live cell key of the queried triangulation (a foreign key can coincide)",
             "stale keys are modelled as the same slot with a later version",
